@@ -104,3 +104,68 @@ pub(crate) fn observe_send<T: ExchangeData>(endpoint: ReceiverEndpoint, msg: &Ne
 pub(crate) fn observe_recv<T>(endpoint: ReceiverEndpoint, msg: &NetworkMessage<T>) {
     dispatch(false, endpoint, msg, |_| None);
 }
+
+/// A real multiplexer and a real demultiplexer joined by ONE TCP connection: what
+/// `NetworkTopology::register_mux` / `register_demux` set up between two hosts for one
+/// `DemuxCoord`, without the rest of the engine.
+pub struct MuxDemuxPair<T: ExchangeData> {
+    /// `senders[i][j]`: the `NetworkSender` replica `senders[i]` holds for endpoint `endpoints[j]`
+    /// (all of them feed the same multiplexer queue). Dropping every sender closes the connection.
+    pub senders: Vec<Vec<crate::verif::FakeSender<T>>>,
+    /// the local channel of each endpoint, fed by the demultiplexer thread
+    pub receivers: Vec<crate::verif::FakeReceiver<T>>,
+    /// multiplexer thread, demultiplexer (binding) thread: both end after the last sender is dropped
+    pub handles: Vec<std::thread::JoinHandle<()>>,
+}
+
+/// Start the demultiplexer of `demux = (block, host, prev_block)` listening on `address` with one
+/// client, register the local channel of every endpoint `(block, host, replica, prev_block)` for
+/// `replica` in `endpoints`, start the multiplexer connecting to `address` and take from it one
+/// sender per (sender replica, endpoint).
+pub fn mux_demux_pair<T: ExchangeData>(
+    demux: (BlockId, crate::scheduler::HostId, BlockId),
+    address: (String, u16),
+    endpoints: &[crate::scheduler::ReplicaId],
+    senders: &[Coord],
+) -> MuxDemuxPair<T> {
+    use crate::network::demultiplexer::DemuxHandle;
+    use crate::network::multiplexer::MultiplexingSender;
+
+    let (block_id, host_id, prev_block_id) = demux;
+    let coord = DemuxCoord {
+        coord: BlockCoord { block_id, host_id },
+        prev_block_id,
+    };
+    let eps: Vec<ReceiverEndpoint> = endpoints
+        .iter()
+        .map(|&r| ReceiverEndpoint::new(Coord::new(block_id, host_id, r), prev_block_id))
+        .collect();
+
+    let (mut demux_handle, demux_join) = DemuxHandle::<T>::new(coord, address.clone(), 1);
+    let mut receivers = Vec::new();
+    for &ep in &eps {
+        let (sender, receiver) = crate::network::local_channel::<T>(ep);
+        demux_handle.register(ep, sender.clone_inner());
+        receivers.push(crate::verif::FakeReceiver::new(ep.coord, receiver));
+    }
+    // all the receivers are registered: the demultiplexer thread starts routing
+    drop(demux_handle);
+
+    let (mut mux, mux_join) = MultiplexingSender::<T>::new(coord, address);
+    let senders = senders
+        .iter()
+        .map(|&from| {
+            eps.iter()
+                .map(|&ep| crate::verif::FakeSender::new(from, mux.get_sender(ep)))
+                .collect()
+        })
+        .collect();
+    // as `NetworkTopology::finalize` does: only the handed-out senders keep the queue open
+    drop(mux);
+
+    MuxDemuxPair {
+        senders,
+        receivers,
+        handles: vec![mux_join, demux_join],
+    }
+}
